@@ -38,6 +38,8 @@ def lifecycle(rec):
     kw = dict(max_workers=W)
     if end == "timeout":
         kw["timeout"] = 0.2
+    if rec.get("ctx", "loky") != "loky":
+        kw["context"] = __import__("multiprocessing").get_context(rec["ctx"])
     make = ProcessPoolExecutor if pool == "plain" else get_reusable_executor
     if load == "spawnfail":
         # the workers cannot be spawned: their initargs do not pickle, the first submit() raises
@@ -106,8 +108,7 @@ def lifecycle(rec):
         collect()
         e.shutdown(wait=True)
     elif end == "timeout":
-        time.sleep(0.8)
-        e.submit(t_ok, 2).result(60)
+        timeout_generations(e)
         e.shutdown(wait=True)
     elif end == "cancel":
         for f in fs[W:]:
@@ -128,6 +129,30 @@ def lifecycle(rec):
         raise AssertionError(end)
     collect()
     fs = e = None
+
+
+class SlowPickle:
+    """an argument that takes `dur` seconds to pickle (in the queue feeder thread) and arrives as the integer 3"""
+    def __init__(self, dur):
+        self.dur = dur
+
+    def __reduce__(self):
+        time.sleep(self.dur)
+        return (int, (3,))
+
+
+def timeout_generations(e):
+    """idle time-outs over several generations of workers of an executor created with timeout=0.2: the first workers leave;
+    submit() re-spawns; those leave; a task whose argument pickles slowly is submitted -- the workers submit() spawned time out
+    while it is pending and the MANAGER THREAD re-spawns; those leave too; one more task.  Returns the results."""
+    out = []
+    time.sleep(0.8)
+    out.append(e.submit(t_ok, 2).result(60))
+    time.sleep(0.8)
+    out.append(e.submit(t_ok, SlowPickle(0.7)).result(60))
+    time.sleep(0.8)
+    out.append(e.submit(t_ok, 4).result(60))
+    return out
 
 
 def grandchildren(e):
